@@ -160,9 +160,14 @@ class C01(Prop):
             grammars.append(gen.random_grammar(rng, rng.randint(3, 6), gen.C01_LEAVES, gen.C01_UNARIES,
                                                gen.C01_BINARIES, gen.C01_TERNARIES))
         maxlen = 4 if tier == 'quick' else 5
+        rest = ('toslice', ('iterp', ('rep', ('any',), 0, None)))
         for g in dedup(grammars):
             kind = 'str' if n % 2 == 0 else 'slice'
-            lines.append(case_line(f'g{n}', g, inputs_all(maxlen if gen.size(g) <= 3 else 4, gen.C01_ALPHA) + ' ' + inputs_all(2, [gen.A, gen.THAI]), kind=kind))
+            inp = inputs_all(maxlen if gen.size(g) <= 3 else 4, gen.C01_ALPHA) + ' ' + inputs_all(2, [gen.A, gen.THAI])
+            lines.append(case_line(f'g{n}', g, inp, kind=kind))
+            # the same grammar followed by "the remainder": the parse succeeds whenever the grammar matches a prefix, so the output
+            # (value, every captured span, how much was consumed) is observed on most inputs instead of a bare rejection
+            lines.append(case_line(f'h{n}', ('then', g, rest), inp, kind=kind))
             n += 1
         return lines
 
@@ -209,6 +214,8 @@ def stream_items(tier, seed, want):
                 add(c, inp02)
         for g in gen.c02_special():
             add(g, inp02)
+        for g in gen.length_sensitive_family():
+            add(g, inputs_all(4, gen.C02_ALPHA), prio=True, must=True)
         for a in gen.C02_NULLABLE_ITEMS:
             for it in [('rep', a, 0, None), ('rep', a, 1, 3), ('sep', a, ('just', [gen.COMMA]), 0, None, False, False)]:
                 for c in gen.c02_consumers(it):
@@ -289,6 +296,7 @@ class ALL(Prop):
         for n, (g, inputs, kw) in enumerate(stream_items(tier, seed, want)):
             kw = dict(kw)
             kw.pop('prio', None)
+            kw.pop('must', None)
             kind = kw.pop('kind', 'str' if n % 2 == 0 else 'slice')
             lines.append(case_line(f'a{n}', g, inputs, kind=kind, **kw))
         return lines
@@ -315,14 +323,17 @@ class C04(Prop):
         items = stream_items(tier, seed, ['c01', 'c02', 'emit', 'rec', 'deco', 'ctx', 'ek'])
         rng = random.Random(seed)
         if tier == 'quick':
-            prio = [it for it in items if it[2].get('prio')]
+            must = [it for it in items if it[2].get('must')]
+            prio = [it for it in items if it[2].get('prio') and not it[2].get('must')]
             rest = [it for it in items if not it[2].get('prio')]
             rng.shuffle(rest)
             rng.shuffle(prio)
-            items = prio[:3000] + rest[:5000]
+            items = must + prio[:3000] + rest[:5000]
         for n, (g, inputs, kw) in enumerate(items):
             kw = dict(kw)
             kw.pop('prio', None)
+            kw.pop('must', None)
+            kw.pop('must', None)
             kind = kw.pop('kind', 'str' if n % 2 == 0 else 'slice')
             lines.append(case_line(f'x{n}p', g, inputs, kind=kind, mode='parse', **kw))
             lines.append(case_line(f'x{n}c', g, inputs, kind=kind, mode='check', **kw))
@@ -427,6 +438,7 @@ class SpecProp(Prop):
         for n, (g, inputs, kw) in enumerate(items):
             kw = dict(kw)
             kw.pop('prio', None)
+            kw.pop('must', None)
             kind = kw.pop('kind', 'str' if n % 2 == 0 else 'slice')
             lines.append(case_line(f's{n}', g, inputs, kind=kind, **kw))
         return lines
@@ -486,6 +498,7 @@ class C02(SpecProp):
         for n, (g, inputs, kw) in enumerate(items):
             kw = dict(kw)
             kw.pop('prio', None)
+            kw.pop('must', None)
             kind = kw.pop('kind', 'str' if n % 2 == 0 else 'slice')
             tag = 'w' if ill_formed_bounds(g) else 's'
             lines.append(case_line(f'{tag}{n}', g, inputs, kind=kind, **kw))
@@ -524,6 +537,44 @@ class C03(SpecProp):
     level_text = ('theorems on parse/check of the model: error-free output iff the grammar followed by end-of-input matches in the '
                   'PEG reading (every token consumed), no-output implies an error, into_result consistency; the real ParseResult '
                   'accessors compared on every case')
+
+    bins = ['h_str_rich', 'h_slice_rich', 'h_stream_rich', 'h_mstream_rich']
+
+    def cases(self, tier, seed):
+        lines = SpecProp.cases(self, tier, seed)
+        # "every token consumed" on inputs that are pulled lazily: a Stream over an iterator whose size_hint lower bound is 0
+        # (the harness's counting iterator), longer than one 512-token refill batch, with and without an unmatched last token;
+        # and a stream-backed Input::map
+        A, B = gen.A, gen.B
+        longg = [
+            ('collect', 'count', ('rep', ('just', [A]), 0, None)),
+            ('iterp', ('rep', ('just', [A]), 0, None)),
+            ('then', ('collect', 'count', ('rep', ('just', [A]), 0, None)), ('ornot', ('just', [B]))),
+            ('collect', 'count', ('rep', ('or', ('just', [A, B]), ('just', [A])), 0, None)),
+            ('lazy', ('collect', 'count', ('rep', ('just', [A]), 0, 600))),
+            ('foldl', 'fcount', ('empty',), ('rep', ('any',), 0, None)),
+            ('collect', 'count', ('sep', ('just', [A]), ('just', [B]), 0, None, False, False)),
+        ]
+        longs = []
+        for L in (511, 512, 513, 1024, 1025):
+            longs.append([A] * L)
+            longs.append([A] * L + [B])            # one-token extension
+            longs.append([A] * L + [gen.COMMA])    # … by a token nothing matches
+            longs.append([A, B] * (L // 2) + [A])
+        linp = ' '.join(inputs_lit(t) for t in longs)
+        for n, g in enumerate(longg):
+            for kd in ('slice', 'stream', 'mstream1'):
+                lines.append(case_line(f'L{n}{kd}', g, linp, kind=kd, fuel=6000))
+        # the contract is the same through check(): every grammar that can succeed with non-fatal errors (recovery, validate)
+        # is also run in check mode — an error-free check() must mean exactly what an error-free parse() means
+        extra = []
+        for l in lines:
+            h = l.split(' ', 5)
+            if h[3] == 'parse' and any(t in l for t in (' rec', ' validate ')):
+                h[0] += 'k'
+                h[3] = 'check'
+                extra.append(' '.join(h))
+        return lines + extra
 
     def compare(self, line, k, impl_M, model_M, spec_S):
         im, mm, ss = parse_M(impl_M), parse_M(model_M), parse_S(spec_S)
@@ -918,6 +969,7 @@ class C20(Prop):
         for n, (g, inputs, kw) in enumerate(items):
             kw = dict(kw)
             kw.pop('prio', None)
+            kw.pop('must', None)
             kind = kw.pop('kind', 'str' if n % 2 == 0 else 'slice')
             extra = []
             for _ in range(4):
